@@ -154,4 +154,4 @@ def streams(tier, rng):
         if o.startswith('MATCH 1'):
             return c
         return c if h[:2].upper().lstrip(':') == p[:2].upper().lstrip('[:') else None
-    yield {'name': 'match', 'cases': cases, 'oracle': oracle, 'nontrivial': nontrivial}
+    yield {'name': 'match', 'coqcheck': True, 'cases': cases, 'oracle': oracle, 'nontrivial': nontrivial}
